@@ -306,3 +306,43 @@ def _generate():
 _generate()
 for _c in (GhostValues, BCRows, GhostsSatisfyRows, GhostsSatisfyRowsEqualEnds, ScaleInvariantABC):
     _c.name = '?'      # abstract: only the generated per-pattern classes are obligations
+
+
+class PlotProfile(Ob):
+    """CellVariable.plotprofile(): the boundary entries are the face averages (ghost + adjacent interior)/2 -- the value
+    the boundary relation is stated for -- and the interior entries are the cell values"""
+    name = 'CellVariable.plotprofile/boundary_entries_are_face_averages'
+    props = ('C03',)
+
+    def region(self, w):
+        return [c for a in range(w.nd) for c in (I(w.P[a]) >= 0, I(w.P[a]) <= w.N[a] + 1)]
+
+    def points(self, w):
+        return list(itertools.product(*[range(0, n + 2) for n in w.N]))
+
+    def setup(self, w):
+        from .solver import make_cellvar
+        cv, coefs = make_cellvar(w, 'phi0')
+        prof = cv.plotprofile()
+        return dict(cv=cv, prof=prof[-1], coords=prof[:-1])
+
+    def claims(self, w, S, P, part=None):
+        v = S['cv']._value
+        onb = []
+        for a in range(w.nd):
+            if w.symbolic:
+                lo, hi = CTX.decide(I(P[a]) == 0), CTX.decide(I(P[a]) == w.N[a] + 1)
+            else:
+                lo, hi = P[a] == 0, P[a] == w.N[a] + 1
+            onb.append((a, -1 if lo else (1 if hi else 0)))
+        nb = [x for x in onb if x[1] != 0]
+        got = w.at(S['prof'], P)
+        if len(nb) == 0:
+            return [('interior_entries_are_cell_values', w.eq(got, w.at(v, P)))]
+        if len(nb) == 1:
+            a, side = nb[0]
+            Q = list(P)
+            Q[a] = 1 if side < 0 else w.N[a]
+            return [('boundary_entry_is_face_average[%s]' % SIDES[a][0 if side < 0 else 1],
+                     w.eq(got, (w.at(v, P) + w.at(v, tuple(Q))) / 2))]
+        return []
